@@ -252,12 +252,18 @@ def run(chk):
   pod = repo.func('infer.ActMindingPodLiterals')
   got = {}
   for x in walk_local(pod.node):
-    if isinstance(x, ast.If) and isinstance(x.test, ast.Compare) and \
-        const_str(x.test.left):
-      for c in walk_local(x):
-        if isinstance(c, ast.Call) and call_tail(c) == 'TypeReference' and \
-            c.args and const_str(c.args[0]):
-          got[const_str(x.test.left)] = const_str(c.args[0])
+    if isinstance(x, ast.If) and isinstance(x.test, ast.Compare):
+      # the kind tested and the type given may both come from a literal table
+      # driving an enclosing loop: one row at a time
+      for binding in tables.table_bindings(pod, x):
+        kind = const_str(tables.bound(x.test.left, binding))
+        if not kind:
+          continue
+        for c in walk_local(x):
+          if isinstance(c, ast.Call) and call_tail(c) == 'TypeReference' and c.args:
+            typ = const_str(tables.bound(c.args[0], binding))
+            if typ:
+              got[kind] = typ
   want = {'the_number': 'Num', 'the_string': 'Str', 'the_bool': 'Bool'}
   for k, t in want.items():
     chk.ob('C05-R4', got.get(k) == t, None, "literal '%s' is typed %s" % (k, t),
